@@ -872,5 +872,9 @@ class BiproportionalEvaluator:
                     )
                     if party_district_highcoef < highcoef:
                         highcoef = party_district_highcoef
-            party_coefs[party] = Fraction(lowcoef + highcoef, 2)
+            if highcoef == INF:
+                # No votes for the party anywhere: any coefficient fits.
+                party_coefs[party] = Fraction(1)
+            else:
+                party_coefs[party] = Fraction(lowcoef + highcoef, 2)
         return party_coefs
